@@ -269,6 +269,7 @@ func checkC10Chunking(c c10Case) error {
 
 func init() {
 	reg("C10", "chunking", checkC10Chunking)
+	reg("C10", "file", checkC10File)
 	reg("C10", "fault", func(c c10Case) error {
 		_, err := checkC10(c)
 		return err
@@ -295,10 +296,111 @@ func c10Inside(src []rune, k int) bool {
 
 var c10Damage = []string{"f() a;", "f() a", ")", "(", "$(", "`", "'", "\"", "${", "$((", "((", ";;", "&&", "|", "<<E", "do", "done", "fi", "esac", "}", "{", "then", "in", "!", "\n", ";", "&", " x "}
 
+// c10File: the source is a real *os.File whose Read fails (or does not).
+type c10File struct {
+	How string `json:"how"` // healthy | write-only | closed | directory | pipe-closed
+	Src string `json:"src"`
+}
+
+func checkC10File(c c10File) error {
+	dir, err := os.MkdirTemp(outDir(), "c10-file-")
+	if err != nil {
+		return fmt.Errorf("harness: %v", err)
+	}
+	defer os.RemoveAll(dir)
+	path := dir + "/script.sh"
+	if err := os.WriteFile(path, []byte(c.Src), 0o644); err != nil {
+		return fmt.Errorf("harness: %v", err)
+	}
+	var f *os.File
+	wantErr := true
+	switch c.How {
+	case "healthy":
+		f, err = os.Open(path)
+		wantErr = false
+	case "write-only":
+		f, err = os.OpenFile(path, os.O_WRONLY, 0)
+	case "closed":
+		if f, err = os.Open(path); err == nil {
+			f.Close()
+		}
+	case "directory":
+		f, err = os.Open(dir)
+	case "pipe-closed":
+		var w *os.File
+		if f, w, err = os.Pipe(); err == nil {
+			w.WriteString(c.Src)
+			w.Close()
+			f.Close()
+		}
+	default:
+		return fmt.Errorf("harness: unknown file source %q", c.How)
+	}
+	if err != nil {
+		return fmt.Errorf("harness: %v", err)
+	}
+	defer f.Close()
+	// what the file itself says when it is read
+	var probe error
+	if wantErr {
+		g := f
+		if c.How == "write-only" {
+			if g, err = os.OpenFile(path, os.O_WRONLY, 0); err != nil {
+				return fmt.Errorf("harness: %v", err)
+			}
+			defer g.Close()
+		} else if c.How == "directory" {
+			if g, err = os.Open(dir); err != nil {
+				return fmt.Errorf("harness: %v", err)
+			}
+			defer g.Close()
+		}
+		_, probe = g.Read(make([]byte, 16))
+		if probe == nil || probe == io.EOF {
+			return fmt.Errorf("harness: reading a %s file does not fail here (%v)", c.How, probe)
+		}
+	}
+	var cmds []ast.Command
+	var perr error
+	if !c06Within(20*time.Second, func() { cmds, _, perr = parser.ParseCommands(nil, "c10", f) }) {
+		return fmt.Errorf("ParseCommands on a %s *os.File did not return within 20s", c.How)
+	}
+	if !wantErr {
+		want, _, werr := parser.ParseCommands(nil, "c10", c.Src)
+		if (perr != nil) != (werr != nil) || len(cmds) != len(want) {
+			return fmt.Errorf("ParseCommands on a healthy *os.File holding %q: %d commands, error %v; the same text as a string: %d commands, error %v", c.Src, len(cmds), perr, len(want), werr)
+		}
+		return nil
+	}
+	if perr == nil {
+		return fmt.Errorf("ParseCommands on a %s *os.File (whose Read fails with %v) returned a nil error and %d command(s)", c.How, probe, len(cmds))
+	}
+	var pe, qe *os.PathError
+	if errors.As(probe, &pe) && !(errors.As(perr, &qe) && qe.Err == pe.Err) && !errors.Is(perr, pe.Err) {
+		return fmt.Errorf("ParseCommands on a %s *os.File returned %v (%T); the read fails with %v", c.How, perr, perr, probe)
+	}
+	return nil
+}
+
 func TestC10(t *testing.T) {
 	st := newStats("C10")
 	defer st.Write()
 	sh, nsh := shard()
+
+	// real files as sources
+	if sh == 3%nsh {
+		for _, how := range []string{"healthy", "write-only", "closed", "directory", "pipe-closed"} {
+			for _, src := range []string{"echo hi\n", "", "a\nb\n", "cat <<E\nx\nE\n", "if a; then\nb\nfi\n", strings.Repeat("a b c\n", 2000)} {
+				c := c10File{How: how, Src: src}
+				if err := checkC10File(c); err != nil {
+					fail(t, "C10", "file", c, "%v", err)
+				}
+				st.EvalN(1, 1)
+				st.Class("os_file_source_" + how)
+			}
+		}
+		st.Note("sources of type *os.File: healthy, opened write-only, closed, a directory, the read end of a closed pipe x 6 texts (empty, one line, several lines, a here-document, 12 kB)")
+	}
 
 	var anySrc bool
 	enumerate := func(tt fataler, src string, rapidCase bool) {
